@@ -2,6 +2,7 @@ import Proofs.ConfModel
 import Proofs.KernelArr
 import Proofs.CgaObj
 import Proofs.Quat
+import Proofs.GaExpModel
 
 /-! # C12 — g3c fast kernels equal their definitions; primitives are exact (algebraic core)
 
@@ -153,5 +154,50 @@ example : Gens (A := Cl 5 (fun i => ([1, 1, 1, 1, -1] : List ℚ).getD i 0)) (fu
     (fun i => ([1, 1, 1, 1, -1] : List ℚ).getD i.val 0) := model_gens 5 _
 
 end Conversions
+
+/-! ### `ga_exp` / `val_exp` / `TR_biv_params_to_rotor` (clifford/tools/g3c/rotor_parameterisation.py) against the series exponential -/
+section GaExpSec
+open Ship Quat GaExp SeriesP
+
+variable {e : Fin 5 → A} {sig : Fin 5 → ℚ}
+
+/-- **`ga_exp` equals the series exponential of the same bivector, truncation by truncation.** For *every* rotation–translation
+    bivector of g3c — unit axis `a`, plane `P = a·e123`, angle `φ`, translation `t = tn + tp` with `tn = (t·a) a` (the code's
+    `t_nor`) — the `(N+1)`-term series of `B = φ P + t·ninf` is
+    `C + (S φ) P + S·(tp ninf) + (C' + (S' φ) P)·(tn ninf)`, where `C, S` (`C', S'`) are the `N+1` (`N`)-term polynomials of `cos φ`
+    and `sin φ / φ`: term for term the coded closed form `coef + coef·(t_nor ninf) + sinc(φ)·(t_par ninf)`, `coef = cos φ + sin φ·P`.
+    (That the polynomials converge to libm's `cos`, `sin`, `sinc` is the analytic remainder: evaluation.) -/
+theorem ga_exp_is_series_exponential (G : Gens e sig) (h0 : sig 0 = 1) (h1 : sig 1 = 1) (h2 : sig 2 = 1) (h3 : sig 3 = 1) (h4 : sig 4 = -1)
+    (a1 a2 a3 t1 t2 t3 φ : ℚ) (ha : a1 ^ 2 + a2 ^ 2 + a3 ^ 2 = 1) (N : Nat) :
+    expTrunc (N + 1) (φ • Pl e a1 a2 a3 + vec3 e t1 t2 t3 * ninf e)
+      = (Cn (N + 1) (-(φ ^ 2))) • (1 : A) + (Sn (N + 1) (-(φ ^ 2)) * φ) • Pl e a1 a2 a3
+          + (Sn (N + 1) (-(φ ^ 2))) • (tpar e a1 a2 a3 t1 t2 t3 * ninf e)
+        + ((Cn N (-(φ ^ 2))) • (1 : A) + (Sn N (-(φ ^ 2)) * φ) • Pl e a1 a2 a3) * (tnor e a1 a2 a3 t1 t2 t3 * ninf e) := by
+  have ht : vec3 e t1 t2 t3 = tnor e a1 a2 a3 t1 t2 t3 + tpar e a1 a2 a3 t1 t2 t3 := by simp only [tpar]; abel
+  rw [ht]
+  exact series_closed_form _ _ _ _ φ (Pl_sq G h0 h1 h2 h3 h4 a1 a2 a3 ha) (ninf_sq G h0 h1 h2 h3 h4 a1 a2 a3 ha)
+    (Pl_ninf G h0 h1 h2 h3 h4 a1 a2 a3 ha) (tnor_ninf G h0 h1 h2 h3 h4 a1 a2 a3 t1 t2 t3 ha) (tpar_ninf G h0 h1 h2 h3 h4 a1 a2 a3 t1 t2 t3 ha)
+    (Pl_tnor G h0 h1 h2 h3 h4 a1 a2 a3 t1 t2 t3 ha) (Pl_tpar G h0 h1 h2 h3 h4 a1 a2 a3 t1 t2 t3 ha) N
+
+/-- the coded closed form is a unit rotor for any `c² + s² = 1` (and any value `σ` in the place of `sinc φ`):
+    `R ~R = 1` with `~R = (1 − tn ninf)(c − s P) − σ (tp ninf)` -/
+theorem ga_exp_unit_rotor (G : Gens e sig) (h0 : sig 0 = 1) (h1 : sig 1 = 1) (h2 : sig 2 = 1) (h3 : sig 3 = 1) (h4 : sig 4 = -1)
+    (a1 a2 a3 t1 t2 t3 c s σ : ℚ) (ha : a1 ^ 2 + a2 ^ 2 + a3 ^ 2 = 1) (hcs : c ^ 2 + s ^ 2 = 1) :
+    ((c • (1 : A) + s • Pl e a1 a2 a3) * (1 + tnor e a1 a2 a3 t1 t2 t3 * ninf e) + σ • (tpar e a1 a2 a3 t1 t2 t3 * ninf e))
+      * ((1 - tnor e a1 a2 a3 t1 t2 t3 * ninf e) * (c • (1 : A) - s • Pl e a1 a2 a3) - σ • (tpar e a1 a2 a3 t1 t2 t3 * ninf e)) = 1 :=
+  closed_form_unit _ _ _ _ (Pl_sq G h0 h1 h2 h3 h4 a1 a2 a3 ha) (ninf_sq G h0 h1 h2 h3 h4 a1 a2 a3 ha)
+    (Pl_ninf G h0 h1 h2 h3 h4 a1 a2 a3 ha) (tnor_ninf G h0 h1 h2 h3 h4 a1 a2 a3 t1 t2 t3 ha) (tpar_ninf G h0 h1 h2 h3 h4 a1 a2 a3 t1 t2 t3 ha)
+    (Pl_tnor G h0 h1 h2 h3 h4 a1 a2 a3 t1 t2 t3 ha) (Pl_tpar G h0 h1 h2 h3 h4 a1 a2 a3 t1 t2 t3 ha) c s σ hcs
+
+/-- the rotation-free branch of `val_exp` (`phi == 0`, repaired in `fix:` 4db2137): `B = t·ninf` is null, its series is exactly
+    `1 + B`, a unit rotor -/
+theorem ga_exp_translation_branch (G : Gens e sig) (h3 : sig 3 = 1) (h4 : sig 4 = -1) (t1 t2 t3 : ℚ) (N : Nat) (hN : 2 ≤ N) :
+    expTrunc N (vec3 e t1 t2 t3 * ninf e) = 1 + vec3 e t1 t2 t3 * ninf e
+    ∧ (1 + vec3 e t1 t2 t3 * ninf e) * (1 - vec3 e t1 t2 t3 * ninf e) = 1 := by
+  refine translation_branch _ _ ?_ ?_ N hN
+  · simp only [ninf]; gens_nf G; simp only [h3, h4]; module
+  · simp only [ninf, vec3]; gens_nf G; module
+
+end GaExpSec
 
 end C12
